@@ -89,6 +89,12 @@ func _yieldMarshalMachinePtr(row *marshalSlabRow, atl atlas.Atlas, rt reflect.Ty
 	if peelCount == 0 {
 		return mach
 	}
+	if tr, ok := mach.(*marshalMachineTransform); ok && tr.delegate == MarshalMachine(&row.ptrDerefDelegateMarshalMachine) {
+		// The transform's target is a pointer type and already occupies this row's pointer machine.
+		mach := &row.errThunkMarshalMachine
+		mach.err = fmt.Errorf("unsupported: pointer to type %v, whose transform yields a pointer type", rt)
+		return mach
+	}
 	row.ptrDerefDelegateMarshalMachine.MarshalMachine = mach
 	row.ptrDerefDelegateMarshalMachine.peelCount = peelCount
 	row.ptrDerefDelegateMarshalMachine.isNil = false
@@ -170,9 +176,21 @@ func _yieldMarshalMachinePtrForAtlasEntry(row *marshalSlabRow, entry *atlas.Atla
 		// The entry.MarshalTransformTargetType is used to do a recursive lookup.
 		// We can't just call the func here because we're still working off typeinfo
 		// and don't have a real value to transform until later.
+		// Pick delegate without growing stack.  (This currently means recursive transform won't fly:
+		// the delegate is configured in this same row, so a target type that needs this row's transform
+		// machine for itself would overwrite the configuration being built here.  Refuse that.)
+		delegate := _yieldMarshalMachinePtr(row, atl, entry.MarshalTransformTargetType)
+		inner := delegate
+		if deref, ok := inner.(*ptrDerefDelegateMarshalMachine); ok {
+			inner = deref.MarshalMachine
+		}
+		if inner == MarshalMachine(&row.marshalMachineTransform) {
+			mach := &row.errThunkMarshalMachine
+			mach.err = fmt.Errorf("unsupported: the transform for type %v yields %v, which needs a transform itself (chained transforms are not supported)", entry.Type, entry.MarshalTransformTargetType)
+			return mach
+		}
 		row.marshalMachineTransform.trFunc = entry.MarshalTransformFunc
-		// Pick delegate without growing stack.  (This currently means recursive transform won't fly.)
-		row.marshalMachineTransform.delegate = _yieldMarshalMachinePtr(row, atl, entry.MarshalTransformTargetType)
+		row.marshalMachineTransform.delegate = delegate
 		// If tags are in play: have the transformer machine glue that on.
 
 		row.marshalMachineTransform.tagged = entry.Tagged
